@@ -19,39 +19,56 @@ FILTER_SPELLINGS = {
 # small trusted parsers
 
 
+KEYWORDS = {"true", "false", "not", "and", "or", "xor", "nor", "nand", "implies", "in", "iff", "eq", "exists", "any", "forall", "all",
+            "if", "then", "else", "gfp", "nu", "lfp", "mu"}
+
+
+def ordering_names(text):
+    """the variable names of an ordering text (what -r prints is meant to be fed back with -o): quoted comments are skipped,
+    every other maximal run of name characters that is not a keyword or a number is a name; repetitions are kept"""
+    txt = re.sub(r'"[^"]*"', " ", text)
+    return [w for w in re.findall(r"[\w']+", txt) if w not in KEYWORDS and not w[0].isdigit()]
+
+
 def parse_stdout(out):
-    """-> (export_names, header, rows, vlines); rows: [cells, result_bool]"""
-    export, header, rows, vlines = [], None, [], []
+    """-> (export_names, header, rows, vlines); rows: [cells, result_bool].
+    Lines are classified by their syntax, not by their position: table lines start with '|' (the first one is the header, a line
+    of dashes separates it from the rows), -v lines end with ';', everything else belongs to the exported ordering."""
+    export_lines, table, vlines = [], [], []
     lines = out.split("\n")
     if lines and lines[-1] == "":
         lines = lines[:-1]
-    i = 0
-    while i < len(lines) and not lines[i].startswith("|") and not lines[i].endswith(";"):
-        export.append(lines[i])
-        i += 1
-    if i < len(lines) and lines[i].startswith("|"):
-        cells = [c.strip() for c in lines[i].strip().strip("|").split("|")]
+    for ln in lines:
+        if ln.startswith("|"):
+            table.append(ln)
+        elif ln.endswith(";"):
+            items = [x for x in ln[:-1].split(", ") if x != ""]
+            for x in items:
+                if not re.fullmatch(r"[\w']+\*?", x):
+                    raise ValueError("unexpected line %r" % ln)
+            vlines.append([[x for x in items if not x.endswith("*")], [x[:-1] for x in items if x.endswith("*")]])
+        else:
+            if ln.strip() and not re.fullmatch(r"""(\s*("[^"]*"|[\w']+))*\s*""", ln):
+                raise ValueError("unexpected line %r" % ln)
+            export_lines.append(ln)
+    header, rows = None, []
+    if table:
+        cells = [c.strip() for c in table[0].strip().strip("|").split("|")]
         header = cells[:-1]
         if cells[-1] != "*":
             raise ValueError("table header does not end with *")
-        i += 1
-        if i >= len(lines) or not re.fullmatch(r"(\|-+)+\|", lines[i]):
+        if len(table) < 2 or not re.fullmatch(r"(\|-+)+\|", table[1].strip()):
             raise ValueError("table separator missing")
-        i += 1
-        while i < len(lines) and lines[i].startswith("|"):
-            cells = [c.strip() for c in lines[i].strip().strip("|").split("|")]
+        for ln in table[2:]:
+            if not ln.rstrip().endswith("|"):
+                raise ValueError("unexpected line %r" % ln)
+            cells = [c.strip() for c in ln.strip().strip("|").split("|")]
             if cells[-1] not in ("True", "False"):
                 raise ValueError("bad result cell %r" % cells[-1])
+            if len(cells) != len(header) + 1:
+                raise ValueError("row with %d cells under a header of %d: %r" % (len(cells), len(header) + 1, ln))
             rows.append([cells[:-1], cells[-1] == "True"])
-            i += 1
-    while i < len(lines):
-        ln = lines[i]
-        if not ln.endswith(";"):
-            raise ValueError("unexpected line %r" % ln)
-        items = [x for x in ln[:-1].split(", ") if x != ""]
-        vlines.append([[x for x in items if not x.endswith("*")], [x[:-1] for x in items if x.endswith("*")]])
-        i += 1
-    return export, header, rows, vlines
+    return ordering_names("\n".join(export_lines)), header, rows, vlines
 
 
 def rust_unescape(s):
@@ -75,25 +92,117 @@ def rust_unescape(s):
     return "".join(out)
 
 
-NODE_RE = re.compile(r'^\s*(\w+)\[label="((?:[^"\\]|\\.)*)"\];$')
-EDGE_RE = re.compile(r'^\s*(\w+) -> (\w+)\[label="((?:[^"\\]|\\.)*)"\];$')
+DOT_TOKEN = re.compile(r"""
+    (?P<ws>\s+|//[^\n]*|/\*.*?\*/|^\#[^\n]*)
+  | (?P<arrow>->|--)
+  | (?P<punct>[\[\]{};,=:])
+  | (?P<quoted>"(?:[^"\\]|\\.)*")
+  | (?P<id>[A-Za-z_\u0080-\uffff][\w\u0080-\uffff]*|-?(?:\.\d+|\d+(?:\.\d*)?))
+""", re.X | re.S | re.M)
+
+
+def dot_tokens(text):
+    pos, out = 0, []
+    while pos < len(text):
+        m = DOT_TOKEN.match(text, pos)
+        if not m:
+            raise ValueError("unreadable DOT text at %r" % text[pos:pos + 30])
+        pos = m.end()
+        if m.lastgroup == "ws":
+            continue
+        if m.lastgroup == "quoted":
+            out.append(("id", m.group()[1:-1], True))
+        elif m.lastgroup == "id":
+            out.append(("id", m.group(), False))
+        elif m.lastgroup == "arrow":
+            out.append(("arrow", m.group(), False))
+        else:
+            out.append((m.group(), m.group(), False))
+    return out
 
 
 def parse_dot(text):
-    lines = text.strip().split("\n")
-    if not re.fullmatch(r"digraph \w+ \{", lines[0]) or lines[-1] != "}":
+    """A reader for the DOT language as far as a graph exporter can reasonably use it: `digraph name { stmt* }` with node
+    statements, edge statements (chains), attribute lists, `graph/node/edge [..]` defaults and `a = b` graph attributes,
+    separated by `;` or nothing; comments.  Returns every node STATEMENT (so a node declared twice shows up twice) and every
+    edge; the label of a node without a label attribute is its name (DOT's default)."""
+    toks = dot_tokens(text)
+    i = 0
+
+    def peek(k=0):
+        return toks[i + k][0] if i + k < len(toks) else None
+
+    def take(kind):
+        nonlocal i
+        if peek() != kind:
+            raise ValueError("DOT: expected %r at token %d (%r)" % (kind, i, toks[i:i + 3]))
+        i += 1
+        return toks[i - 1]
+
+    if peek() == "id" and toks[i][1] == "strict":
+        i += 1
+    if not (peek() == "id" and toks[i][1] == "digraph"):
         raise ValueError("not a digraph")
+    i += 1
+    if peek() == "id":
+        i += 1
+    take("{")
     nodes, edges = [], []
-    for ln in lines[1:-1]:
-        m = EDGE_RE.match(ln)
-        if m:
-            edges.append([m.group(1), m.group(2), rust_unescape(m.group(3))])
+    defaults = {"node": {}, "edge": {}}
+
+    def attr_lists():
+        nonlocal i
+        attrs = {}
+        while peek() == "[":
+            i += 1
+            while peek() != "]":
+                k = take("id")[1]
+                take("=")
+                v = take("id")
+                attrs[k] = rust_unescape(v[1]) if v[2] else v[1]
+                if peek() in (",", ";"):
+                    i += 1
+            take("]")
+        return attrs
+
+    while peek() != "}":
+        if peek() == ";":
+            i += 1
             continue
-        m = NODE_RE.match(ln)
-        if m:
-            nodes.append([m.group(1), rust_unescape(m.group(2))])
+        if peek() == "{" or (peek() == "id" and toks[i][1] == "subgraph" and not toks[i][2]):
+            raise ValueError("DOT: subgraphs are not supported by this reader")
+        first = take("id")
+        if not first[2] and first[1] in ("graph", "node", "edge") and peek() == "[":
+            a = attr_lists()
+            if first[1] != "graph":
+                defaults[first[1]].update(a)
             continue
-        raise ValueError("unreadable DOT line %r" % ln)
+        if peek() == "=":
+            i += 1
+            take("id")
+            continue
+        chain = [first[1]]
+        while peek() == "arrow":
+            if toks[i][1] != "->":
+                raise ValueError("DOT: undirected edge in a digraph")
+            i += 1
+            chain.append(take("id")[1])
+            if peek() == ":":          # ports
+                i += 1
+                take("id")
+        a = attr_lists()
+        if len(chain) == 1:
+            aa = dict(defaults["node"])
+            aa.update(a)
+            nodes.append([chain[0], aa.get("label", chain[0])])
+        else:
+            aa = dict(defaults["edge"])
+            aa.update(a)
+            for x, y in zip(chain, chain[1:]):
+                edges.append([x, y, aa.get("label", "")])
+    take("}")
+    if i != len(toks):
+        raise ValueError("DOT: text after the closing brace")
     return {"nodes": nodes, "edges": edges}
 
 
@@ -168,6 +277,14 @@ STRATIFIED = [
     "if a then b else c", "lfp X # a | (X & b)", "gfp X # X", "b & (mu X # a | exists a # X)", "(exists z # z) & a & z",
     "a <=> (b nand c)", "[a, a, b] > 1", "nu Y # (a | b) & Y", "-(x1 & x2) | {undefined}", "forall # a", "[] = 0",
     "q1 & -q1", "a | -a", "exists a # forall b # a ^ b ^ c",
+]
+
+
+BIG_TABLES = [
+    "a ^ b ^ c ^ d ^ e ^ f ^ g ^ h",
+    "[a, b, c, d, e, f, g, h] >= 4",
+    "(p1 <=> p2) ^ (p3 <=> p4) ^ (p5 <=> p6) ^ p7",
+    "[x1 & x2, x3, x4 | x5, x6, x7, -x8] = 3",
 ]
 
 
@@ -253,6 +370,22 @@ class CliCampaign:
             it["exit"] = rc
             it["stdout"] = out
             it["argv"] = args
+            # the variable order the tool actually uses is an observable (-r), not a prediction: a run without -r is
+            # probed once more with -r added (and without the file exports)
+            it["probe"] = None
+            if rc == 0 and not it["export"]:
+                pargs = []
+                skip = False
+                for a_ in args:
+                    if skip:
+                        skip = False
+                        continue
+                    if a_ in ("-d", "-p"):
+                        skip = True
+                        continue
+                    pargs.append(a_)
+                prc, pout = run_rsbdd(pargs + ["-r"], stdin)
+                it["probe"] = (prc, pout)
             for k, ext in (("dot_text", ".dot"), ("ptree_text", ".ptree")):
                 p = base + ext
                 it[k] = open(p).read() if os.path.exists(p) else None
@@ -304,13 +437,33 @@ class CliCampaign:
                 so = None
             ev["stdout_empty"] = (it["stdout"] == b"")
             ev["digest"] = hashlib.sha1(it["stdout"]).hexdigest()[:16]
-            names = dsc.get("names", [])
+            lib_names = dsc.get("names", [])
+            # canonical names n1.. follow the order the binary itself exports; names it does not export (reported by
+            # Trace_Cli) are appended in the library's order so that the renaming stays total
+            exported = None
+            try:
+                if it["exit"] == 0 and it["export"] and so is not None:
+                    exported = parse_stdout(so)[0]
+                elif it["exit"] == 0 and it.get("probe") and it["probe"][0] == 0:
+                    exported = parse_stdout(it["probe"][1].decode("utf-8"))[0]
+            except (ValueError, UnicodeDecodeError):
+                exported = None
+            names = []
+            for x in (exported or []):
+                if x in lib_names and x not in names:
+                    names.append(x)
+            names += [x for x in lib_names if x not in names]
             canon = {n: "n%d" % (i + 1) for i, n in enumerate(names)}
+            libcanon = {"n%d" % (i + 1): canon[n] for i, n in enumerate(lib_names)}
             ev["names"] = names
-            ev["ast"] = dsc.get("ast", [])
+            ev["lib_names"] = lib_names
+            ev["ast"] = rename_tree(dsc.get("ast", []), libcanon)
+            ev["has_probe"] = exported is not None
+            ev["order_export"] = [canon[x] for x in (exported or []) if x in canon]
+            ev["export_extras"] = [x for x in (exported or []) if x not in canon]
             ev.update(has_base=False, base_rows=[])
             ev.update(has_table=False, has_vars=False, has_export=False, has_dot=False, has_ptree=False, has_api=False,
-                      header=[], rows=[], vlines=[], order_export=[], dot={"nodes": [], "edges": []}, ptree={"nodes": [], "edges": []},
+                      header=[], rows=[], vlines=[], dot={"nodes": [], "edges": []}, ptree={"nodes": [], "edges": []},
                       api_tt=[], api_ok=True)
             bad = None
             if it["exit"] == 0 and so is not None:
@@ -318,9 +471,10 @@ class CliCampaign:
                     export, header, rows, vlines = parse_stdout(so)
                     if it["export"]:
                         ev["has_export"] = True
-                        ev["order_export"] = export
                     elif export:
                         raise ValueError("unexpected leading lines %r" % export[:2])
+                    if exported is None:
+                        raise ValueError("the variable order could not be observed (-r probe: %r)" % (it.get("probe") or ("", b""))[1][:200])
                     if it["table"]:
                         if header is None:
                             raise ValueError("no table printed")
@@ -358,7 +512,7 @@ class CliCampaign:
                     bad = bad or ("API route panicked: %s" % api["panic"])
                 else:
                     ev["has_api"] = True
-                    ev["api_tt"] = api["tt"]
+                    ev["api_tt"] = permute_table(api["tt"], lib_names, names)
                     ev["api_ok"] = api["ok"]
             if it.get("base") is not None and it["exit"] == 0:
                 b = self.items[it["base"]]
@@ -378,12 +532,44 @@ class CliCampaign:
         return groups
 
 
+def rename_tree(t, f):
+    """rename the variable names of a syntax tree in the harness's JSON form"""
+    if not isinstance(t, list) or not t:
+        return t
+    k = t[0]
+    if k == "var":
+        return ["var", f.get(t[1], t[1])]
+    if k == "q":
+        return ["q", t[1], [f.get(x, x) for x in t[2]], rename_tree(t[3], f)]
+    if k == "fix":
+        return ["fix", f.get(t[1], t[1]), t[2], rename_tree(t[3], f)]
+    if k in ("cc", "cv"):
+        return [k, t[1]] + [[rename_tree(x, f) for x in part] if isinstance(part, list) else part for part in t[2:]]
+    return [k] + [rename_tree(x, f) if isinstance(x, list) else x for x in t[1:]]
+
+
+def permute_table(tt, old, new):
+    """truth table over the columns `old` (first column most significant) re-indexed for the column order `new`"""
+    n = len(old)
+    if n == 0 or old == new:
+        return tt
+    pos = [old.index(x) for x in new]
+    out = []
+    for j in range(1 << n):
+        bits = [(j >> (n - 1 - i)) & 1 for i in range(n)]      # values of new[i]
+        oj = 0
+        for i, b in enumerate(bits):
+            oj |= b << (n - 1 - pos[i])
+        out.append(tt[oj])
+    return out
+
+
 def validate_cli_groups(run, groups, label, owners):
     """events with the same key must meet in one TLC process: shard by key"""
     d = fresh_dir(run.prop, "tv_" + label)
     jobs = []
     for k, evs in sorted(groups.items()):
-        if k > 6:
+        if k > 8:
             continue
         nshards = max(1, min(8, len(evs) // 60))
         shards = [[] for _ in range(nshards)]
@@ -495,6 +681,12 @@ def c10(run):
         if t:
             for o in ovs:
                 camp.add(text, o, filt=rnd.choice(["Any", "True", "False"]))
+    # tables of a few hundred rows (more than one output buffer), -t and -v together
+    for text in BIG_TABLES:
+        names = names_of_formula(text)
+        camp.add(text, None, vars_=True, table=True)
+        camp.add(text, " ".join(reversed(names)), vars_=True, table=True, filt="True", channel="file")
+        camp.add(text, None, table=True, filt="False", channel="stdin", bench=2)
     camp.execute()
     groups = camp.events()
     n = validate_cli_groups(run, groups, "table", {"C10", "C08", "C12"})
@@ -600,6 +792,8 @@ def c14(run):
             ev["key"] = hashlib.sha1(json.dumps(ev, sort_keys=True).encode()).hexdigest()[:20]
     validate_cli_groups(run, groups, "dotlib", {"C14"})
     run.sample({"direction": "impl->spec", "export": groups[max(groups)][7]})
+    # ~107 000 shared test nodes each: enough pairs of nodes for a birthday collision of any 32-bit node identity
+    big_dot_cases(run, 20, 16 if t else 6)
     # through the binary
     camp = CliCampaign(run, "dotcli")
     rnd = camp.rnd
@@ -614,6 +808,109 @@ def c14(run):
     validate_cli_groups(run, g2, "dotcli", {"C14", "C12"})
     run.nontrivial = nontrivial
     run.assumptions += ["the DOT reader and the inverse of Rust's escape_default in lib/checks_cli.py are trusted"]
+
+
+def check_big_dot(dot_text, st):
+    """DotBddOK (spec/Dot.tla) for diagrams far beyond TLC's reach: every node declared once, only declared nodes referenced,
+    one T and one F edge per test node (edges into the leaf omitted by the filter may be missing), one root, and the graph read
+    back as a decision graph is equivalent to the diagram (simultaneous walk of both ordered graphs).  Returns a reason or None."""
+    g = parse_dot(dot_text)
+    pos = {n: i for i, n in enumerate(st["order"])}
+    label = {}
+    for i, l in g["nodes"]:
+        if i in label:
+            return "node %s is declared more than once" % i
+        label[i] = l
+    omitted = {"Any": None, "True": "false", "False": "true"}[st["filter"]]
+    succ = {}
+    indeg = {i: 0 for i in label}
+    for a, b, l in g["edges"]:
+        if a not in label or b not in label:
+            return "edge %s -> %s references an undeclared node" % (a, b)
+        if l not in ("T", "F"):
+            return "edge label %r" % l
+        if (a, l) in succ:
+            return "node %s has two %s edges" % (a, l)
+        succ[(a, l)] = b
+        indeg[b] += 1
+    for i, l in label.items():
+        if l in ("true", "false"):
+            if l == omitted:
+                return "the leaf %s should have been omitted" % l
+            continue
+        if l not in pos:
+            return "label %r is not a variable of the diagram" % l
+        for e in ("T", "F"):
+            if (i, e) not in succ and omitted is None:
+                return "node %s has no %s edge" % (i, e)
+    tests = [i for i, l in label.items() if l not in ("true", "false")]
+    roots = [i for i in tests if indeg[i] == 0]
+    if st["root"] < 0:
+        return None if not tests else "test nodes exported for a constant diagram"
+    if len(roots) != 1:
+        return "%d root nodes" % len(roots)
+    LEAF = {-1: "false", -2: "true"}
+    seen = set()
+    stack = [(roots[0], st["root"])]
+    while stack:
+        d, b = stack.pop()
+        if (d, b) in seen:
+            continue
+        seen.add((d, b))
+        if len(seen) > 40 * (len(label) + len(st["var"])) + 1000:
+            return "exported graph and diagram do not unfold alike (pair walk exploded)"
+        dl = omitted if d is None else label[d]
+        d_leaf = dl in ("true", "false")
+        if b < 0 and d_leaf:
+            if LEAF[b] != dl:
+                return "a path ends in %s in the export and in %s in the diagram" % (dl, LEAF[b])
+            continue
+        pd = len(pos) if d_leaf else pos[dl]
+        pb = len(pos) if b < 0 else pos[st["var"][b]]
+        v = min(pd, pb)
+        for e, arr in (("T", st["hi"]), ("F", st["lo"])):
+            nd = succ.get((d, e)) if pd == v else d
+            nb = arr[b] if pb == v else b
+            stack.append((nd, nb))
+    return None
+
+
+def big_dot_cases(run, nv, procs, only=None):
+    """node identity at scale: random diagrams with tens of thousands of shared nodes"""
+    d = fresh_dir(run.prop, "dotbig")
+    build_harness()
+    e = dict(os.environ)
+    e["VERIF_SEED"] = str(seed())
+    salts = [k for k in range(procs) if only is None or k == only]
+    ps = [subprocess.Popen([HARNESS_BIN, "dot-big", d, str(nv), "1", str(k)], stdout=subprocess.PIPE, stderr=subprocess.DEVNULL, env=e) for k in salts]
+    sizes = []
+    for k, p in zip(salts, ps):
+        out, _ = p.communicate(timeout=3600)
+        if p.returncode != 0:
+            run.violation("dot:panic:big", "render_dot failed (exit %d) on a random diagram over %d variables (salt %d)" % (p.returncode, nv, k),
+                          {"mode": "dot-big", "nv": nv, "salt": k})
+            continue
+        sizes += json.loads(out.decode().strip().splitlines()[-1])["summary"]["test_nodes"]
+    n = 0
+    for f in sorted(os.listdir(d)):
+        if not f.endswith(".json"):
+            continue
+        st = json.load(open(os.path.join(d, f)))
+        salt = int(f.split("_")[1])
+        if not st["ok"]:
+            run.violation("dot:panic:big", "render_dot failed on a random diagram over %d variables" % nv, {"mode": "dot-big", "nv": nv, "salt": salt})
+            continue
+        try:
+            why = check_big_dot(open(os.path.join(d, f[:-5] + ".dot"), encoding="utf-8", errors="replace").read(), st)
+        except (ValueError, KeyError, IndexError) as ex:
+            why = "DOT text cannot be read back: %s" % ex
+        n += 1
+        if why:
+            run.violation("dot:big:" + why.split(" ")[0], "random diagram over %d variables (%d test nodes), filter %s: %s"
+                          % (nv, len(st["var"]), st["filter"], why), {"mode": "dot-big", "nv": nv, "salt": salt})
+    run.extra.setdefault("i2s", {})["big_diagrams"] = {"exports": n, "variables": nv, "test_nodes": sizes}
+    run.impl_traces += n
+    run.evaluations += n
 
 
 def replay_cli_run(prop, rp):
@@ -665,4 +962,12 @@ def cli_model_retain(run, which):
 
 
 CHECKS = {"C10": c10, "C11": c11, "C14": c14}
-REPLAYS = {"cli-run": replay_cli_run, "dot-case": replay_dot_case}
+def replay_dot_big(prop, rp):
+    run = Run(prop, "quick")
+    big_dot_cases(run, rp["nv"], rp["salt"] + 1, only=rp["salt"])
+    for key, desc, _ in run.violations:
+        log("replay: %s" % desc[:400])
+    return not run.violations
+
+
+REPLAYS = {"cli-run": replay_cli_run, "dot-case": replay_dot_case, "dot-big": replay_dot_big}
